@@ -65,10 +65,9 @@ type Counter struct {
 }
 
 // Observed is what was observed of the implementation on one record; the reference consults it only where the
-// documentation leaves the outcome open (sampled drop, A4).
+// documentation leaves the outcome open (sampled drop: which of the two counters of that step moved).
 type Observed struct {
 	Counters map[string]Counter // deltas of this record, by label
-	Final    []string           // final field values (only used for A4)
 }
 
 // dropState is the running state of one sampled drop step.
@@ -85,6 +84,8 @@ type Ref struct {
 	opaque Opaque
 	// ExactGlob: decide !!glob exactly also on non-ASCII values (match engine); otherwise A11 applies
 	ExactGlob bool
+	// Truncated: the last RunAll did not enumerate every allowed outcome
+	Truncated bool
 
 	// per record
 	f         []string
@@ -150,6 +151,7 @@ type Result struct {
 // several when A4 points were met (at most 64). The sampled-drop state is NOT advanced; call Adopt with the result
 // that is to be continued.
 func (r *Ref) RunAll(p *Program, fields []string, unescaped bool, rawLen int, obs *Observed) []*Result {
+	r.Truncated = false
 	saved := map[int]dropState{}
 	for k, v := range r.Drops {
 		saved[k] = *v
@@ -158,6 +160,7 @@ func (r *Ref) RunAll(p *Program, fields []string, unescaped bool, rawLen int, ob
 	var rec func(forced []bool)
 	rec = func(forced []bool) {
 		if len(out) >= 64 {
+			r.Truncated = true // more open points than are enumerated: a missing agreement proves nothing
 			return
 		}
 		r.Drops = map[int]*dropState{}
